@@ -320,6 +320,9 @@ func realMain() int {
 			ur.Props = u.con.Props
 			ur.Pos = strings.TrimPrefix(u.con.Pos, *flagRepo+"/")
 			finals = x.verifyContract(u.con)
+			if u.con.Target != nil && !u.con.Lemma && strings.HasPrefix(pkgPathOf(u.con.Target), frpPrefix) {
+				x.checkGoShare(u.con.Target)
+			}
 		} else if u.nb != nil {
 			x.unit = "noblock:" + x.fnShort(u.nb.Target)
 			ur.Name = x.unit
